@@ -383,7 +383,44 @@ def molecules_for(ctx, spec):
     return out
 
 
+def check_threads(ctx, names=None, rounds=2):
+    """The decomposition is a function of (scheme, molecule): one scheme
+    object asked by four threads at once -- texts and molecule objects --
+    answers every thread as it answers a lone caller (whose answer the
+    ordinary workload judges against the scheme file)."""
+    from vmon.core import threads as TH
+    if names is None:
+        k = (ctx.seed + ctx.shard // 4) % len(libs.LIBS)
+        names = [libs.LIBS[k], libs.LIBS[(k + 4) % len(libs.LIBS)]]
+    r = ctx.sub_rng('c02thr', *names)
+    jobs_src = []
+    for name in names:
+        real, ref = get_scheme(name)
+        pl = list(molecules_for(ctx, name))
+        for smi in r.sample(pl, min(len(pl), 10)):
+            jobs_src.append((name, real, smi))
+
+    def make_jobs():
+        jobs = []
+        for name, real, smi in jobs_src:
+            def thunk(real=real, smi=smi):
+                d = real.GetDescriptors(smi)
+                return repr(sorted((str(g), float(v)) for g, v in d.items()))
+
+            def thunk_mol(real=real, smi=smi):
+                d = real.GetDescriptors(Chem.MolFromSmiles(smi))
+                return repr(sorted((str(g), float(v)) for g, v in d.items()))
+            jobs.append(((name, smi, 'text'), thunk))
+            jobs.append(((name, smi, 'mol'), thunk_mol))
+        return jobs
+    res = TH.stress(make_jobs, nthreads=4, rounds=rounds)
+    TH.judge(ctx, res, 'GetDescriptors on a shared scheme object',
+             {'what': 'thread stress', 'schemes': names})
+
+
 def run_shard(ctx):
+    if ctx.shard % 4 == 3:
+        check_threads(ctx)
     i = 0
     specs = list(libs.LIBS) + [['synthetic', 'y%d_%d' % (ctx.seed, k)]
                                for k in range(6 if ctx.tier == 'quick'
@@ -444,6 +481,8 @@ def describe(m, tier):
 
 
 def replay(ctx, case):
+    if case.get('what') == 'thread stress':
+        return check_threads(ctx, case['schemes'], rounds=8)
     check_case(ctx, case)
 
 
